@@ -49,7 +49,7 @@ class C08(Check):
                    'each mode is compared with branches run in the SAME mode, so early completion after take/first on plain observables is part of the reference',
                    'branch programs whose standalone run errors (mean(reduce) on an empty key ...) are discarded']
     ANCHORS = ['rxsci/operators/tee_map.py', 'rxsci/mux/muxconnectable.py']
-    REQUIRED_TAGS = ['plain', 'mux', 'group', 'roll', 'roll_eq', 'split', 'zip', 'merge', 'combine_latest', 'branches=2', 'branches=3', 'branches=4', 'nested-tee', 'over-256-keys', 'after-aborted-subscriptions', 'prelude:dispose', 'prelude:peek', 'a-branch-with-failing-records', 'rx-native-branch-with-inner-observables', 'branches>=9']
+    REQUIRED_TAGS = ['plain', 'mux', 'group', 'roll', 'roll_eq', 'split', 'zip', 'merge', 'combine_latest', 'branches=2', 'branches=3', 'branches=4', 'nested-tee', 'over-256-keys', 'after-aborted-subscriptions', 'prelude:dispose', 'prelude:peek', 'a-branch-with-failing-records', 'rx-native-branch-with-inner-observables', 'branches>=9', 'a-key-slot-reused-by-hundreds-of-windows-while-a-value-waits-in-the-join']
     REQUIRED_OBSERVED = ['tuples_compared', 'branch_traces_recorded', 'lifetimes_checked', 'cold_source_runs_compared']
 
     def generate(self, rng, tier, shard, nshards):
@@ -71,6 +71,24 @@ class C08(Check):
                 yield {'branches': branches, 'join': ['zip', 'combine_latest', 'merge'][(k // 400) % 3], 'ctx': 'group',
                        'ctx_node': ['group_by', rng.choice(['mod:300', 'mod:140', 'kt:300']), None],
                        'items': [rng.randint(0, 2000) for _ in range(rng.choice([900, 1500]))]}
+                continue
+            if k % 400 == 210:
+                # one key slot re-used by hundreds of successive windows / segments while a value waits in a join slot: branch A
+                # emits in window a, branch B - alone - in window a + d, for d around the powers of two (generation counters,
+                # stamps and bit sets of 7, 8, 9, 10 bits)
+                gaps = [255, 256, 127, 128, 129, 257, 254, 511, 512, 513, 510, 1023, 1024, 1025]
+                for e in range(2):
+                    d = gaps[(2 * (k // 400) + e) % len(gaps)]
+                    for join in ('zip', 'combine_latest'):
+                        wl = 1 + ((k // 400) + e) % 2
+                        a = rng.randint(2, 9)
+                        first, second = a * wl, (a + d) * wl + (wl - 1)
+                        branches = [[['filter', 'modeq:1000000:%d' % first]], [['filter', 'modeq:1000000:%d' % second]]]
+                        if (k // 400) % 3 == 2:
+                            branches.append([['filter', 'modeq:1000000:%d' % second]])
+                        yield {'branches': branches, 'join': join, 'ctx': ['roll_eq', 'split'][(k // 1600) % 2],
+                               'ctx_node': [['roll', wl, wl, None], ['split', 'div:%d' % wl, None]][(k // 1600) % 2],
+                               'items': list(range(second + 2 * wl + 1)), 'slot_reuse_gap': d}
                 continue
             ctx = names[k % len(names)]
             plain = ctx == 'plain'
@@ -115,6 +133,8 @@ class C08(Check):
         out.tags += [ctx, join, 'branches=%d' % len(branches)]
         if len(branches) >= 9:
             out.tags.append('branches>=9')
+        if case.get('slot_reuse_gap'):
+            out.tags.append('a-key-slot-reused-by-hundreds-of-windows-while-a-value-waits-in-the-join')
         if any(n[0] == 'rxflat' for b in branches for _, n in progs.walk(b)):
             out.tags.append('rx-native-branch-with-inner-observables')
         if case.get('prelude') and progs.usable_prelude([tee], case['prelude']) and ctx != 'plain':
